@@ -113,6 +113,11 @@ Theorem C11_precursor_order_proviso : forall U,
 Proof. exact key_separates_sufficient. Qed.
 Print Assumptions C11_precursor_order_proviso.
 
+(* why the proviso asks for PEPs: a match-between-runs row among rows tying on the rest of the key makes the comparison intransitive *)
+Theorem C11_key_not_transitive_with_mbr : key_leb nt_a nt_b = true /\ key_leb nt_b nt_c = true /\ key_leb nt_a nt_c = false.
+Proof. exact key_not_transitive_with_mbr. Qed.
+Print Assumptions C11_key_not_transitive_with_mbr.
+
 (* without the proviso the clause is FALSE of the model: of two rows that tie on the whole key the first in file order supplies
    the SILAC channels (replayed on the implementation by the check: see DESIGN 0.5, "observed") *)
 Theorem C11_precursor_order_matters_on_full_key_ties :
